@@ -303,10 +303,16 @@ Inductive case :=
    and message): the body the real handler wrote with hostile text in every request- and
    provider-controlled input (parameters, cookies, request headers, provider answers) that reaches
    the call site, and (as a recipe) the body the same handler wrote for the benign variant of the
-   same request. The model predicts equal bytes. *)
+   same request. The model predicts equal bytes (the site may also be an answer that is not a
+   page at all: a bare status, a plain-text message). *)
 | CSame (svc : N) (site : N) (ctype real : str) (benign : list seg) (vars : list variant)
 (* a JSON error body: 0 = sso-proxy XHRError, 1 = sso-auth ErrorResponse with Accept: application/json *)
-| CJson (svc : N) (msg ctype body : str) (benign : list seg).
+| CJson (svc : N) (msg ctype body : str) (benign : list seg)
+(* a request for which the code under test did not do what the model says at all (the call site
+   was not reached with the expected status, or a page was served without the template call the
+   model predicts): always a model/implementation difference; the bytes actually served are still
+   judged by the inertness monitor against the benign run of the same request *)
+| CDiverged (svc site : N) (ctype real : str) (benign : list seg).
 
 Definition tpls_of (svc : N) : templates := if svc =? 0 then proxy_templates else auth_templates.
 
@@ -360,12 +366,14 @@ Definition var_body (real : str) (v : variant) : str :=
   match v with Var _ _ (Some segs) _ => rebuild real segs | Var _ _ None _ => real end.
 Definition var_benign (real benign : str) (v : variant) : str :=
   match v with Var _ _ _ (Some segs) => rebuild (var_body real v) segs | Var _ _ _ None => benign end.
-(* model: mode 0 = same page with an HTML type, mode 1 = the JSON body with the JSON type *)
+(* model: mode 0 = same page with an HTML type, mode 1 = the JSON body with the JSON type,
+   mode 2 = same bytes (answers that are not pages: bare status, plain-text message) *)
 Definition var_mismatch (real jm : str) (v : variant) : bool :=
   match v with
   | Var mode ct _ _ =>
       if mode =? 0 then negb (str_eqb (var_body real v) real) || negb (has_prefix (lower_ascii ct) [116;101;120;116;47;104;116;109;108])
-      else negb (str_eqb (var_body real v) jm) || negb (is_json_type ct)
+      else if mode =? 1 then negb (str_eqb (var_body real v) jm) || negb (is_json_type ct)
+      else negb (str_eqb (var_body real v) real)
   end.
 Definition var_holds (real benign : str) (v : variant) : bool :=
   match v with Var _ ct _ _ => resp_inert ct (var_body real v) (var_benign real benign v) end.
@@ -383,12 +391,13 @@ Definition judge (c : case) : N :=
       code (negb (str_eqb m rendered)) (hole_inert payload rendered) 0
   | CSame svc site ctype real benign vars =>
       let b := rebuild real benign in
-      code (negb (str_eqb real b) || negb (is_markup_type ctype) ||
-            existsb (var_mismatch real (model_json svc [])) vars)
+      code (negb (str_eqb real b) || existsb (var_mismatch real (model_json svc [])) vars)
            (resp_inert ctype real b && forallb (var_holds real b) vars) 0
   | CJson svc msg ctype body benign =>
       let m := if svc =? 0 then proxy_xhr_json msg else auth_error_json msg in
       code (negb (str_eqb m body) || negb (is_json_type ctype)) (resp_inert ctype body (rebuild body benign)) 0
+  | CDiverged svc site ctype real benign =>
+      code true (resp_inert ctype real (rebuild real benign)) 0
   end.
 
 (* classes: 0/10/20 = payload without any character the escapers touch (trivial);
@@ -409,4 +418,5 @@ Definition classify (c : case) : N :=
   | CHole svc _ _ ctx payload _ => if has_special payload then 11 + svc + 2 * ctx else 10
   | CSame svc site _ _ _ _ => 30 + svc
   | CJson svc msg _ _ _ => if json_special msg then 21 + svc else 20
+  | CDiverged svc _ _ _ _ => 40 + svc
   end.
